@@ -41,6 +41,11 @@ FUNCS = ["lead_exponent", "lead_coefficient", "isconstant", "tonumpy", "decompos
 def case_st(draw, only=None):
     fn = only or draw(st.sampled_from(FUNCS))
     names = draw(gen.names_st(max_size=3))
+    if draw(st.integers(0, 4)) == 0:
+        # three or four names stored in a cyclic (non self-inverse) order
+        base = sorted(draw(st.lists(st.sampled_from(gen.NAME_POOL), min_size=3, max_size=4, unique=True)), key=gen.var_num)
+        k = draw(st.integers(1, len(base) - 1))
+        names = base[k:] + base[:k]
     shape = draw(st.sampled_from([(), (), (2,), (3,), (4,), (2, 2), (2, 3), (1, 3), (5,)]))
     if fn in ("sortable_proxy", "argext") and shape == ():
         shape = (4,)
@@ -201,7 +206,9 @@ def check_case(case, ctx):
         d = case["dims"]
         D = len(names)
         try:
-            got = numpoly.set_dimensions(p, d)
+            # (the count as a plain, a numpy signed or a numpy unsigned integer, as numpy hands them out)
+            darg = [d, numpy.int64(d), numpy.uint8(d)][(d + len(names) + pm.size) % 3]
+            got = numpoly.set_dimensions(p, darg)
             gm = to_model(got)
         except MalformedPoly as err:
             return fail("malformed", str(err), "any")
